@@ -1,7 +1,7 @@
 (* C14 — A damaged record is never returned as data (V2).
    Residual premise, not proved here: that in-place damage of a record does not produce ANOTHER byte string
    that is itself a complete, CRC-consistent record (a CRC-32C collision); everything else is proved. *)
-From KV Require Import Base Model Codec CodecProofs CrcProofs.
+From KV Require Import Base Model Codec CodecProofs CrcProofs CrcBurst.
 
 (* whatever a read returns from a (possibly damaged) file is a complete valid record that is really there:
    its length fields, CRC over header+payload+trailer and trailer all fit the bytes at that position *)
@@ -69,3 +69,36 @@ Theorem C14_single_byte_damage_detected :
   forall m' nxt, read_rec crc32c V2 b' pos = Ok (m', nxt) -> rec_size V2 m' <> rec_size V2 m.
 Proof. exact CrcProofs.single_byte_damage_detected. Qed.
 Print Assumptions C14_single_byte_damage_detected.
+
+(* ---------- more of the residual premise: CRC-32C tells apart any two byte strings of the same length that differ only
+   inside a window of at most four consecutive bytes (any burst of up to 32 bits: the register update is linear over
+   GF(2) and injective on 32-bit values) *)
+Theorem C14_crc32c_detects_bursts :
+  forall pre w w' post,
+  bytes_ok pre -> bytes_ok post -> bytes_ok w -> bytes_ok w' -> length w = length w' -> (length w <= 4)%nat ->
+  crc32c (pre ++ w ++ post) = crc32c (pre ++ w' ++ post) -> w = w'.
+Proof. exact CrcBurst.crc32c_burst. Qed.
+Print Assumptions C14_crc32c_detects_bursts.
+
+(* hence: a V2 record overwritten anywhere inside a window of at most four consecutive bytes that does not straddle the
+   end of the checksum field (bytes 0..3 of the record) is never read back with its size unchanged: the read fails, unless
+   a length field was hit, and then whatever is read has another size.  (For a window that covers bytes of the checksum
+   field and of the data behind it the checksum gives no such guarantee - it is stored in front of the data.) *)
+Theorem C14_burst_damage_detected :
+  forall b' pos m,
+  bytes_ok b' -> 0 <= pos -> bytes_ok (enc_rec crc32c V2 m) ->
+  CrcBurst.differ_in_window (enc_rec crc32c V2 m) (sub b' pos (rec_size V2 m)) ->
+  forall m' nxt, read_rec crc32c V2 b' pos = Ok (m', nxt) -> rec_size V2 m' <> rec_size V2 m.
+Proof. exact CrcBurst.burst_damage_detected. Qed.
+Print Assumptions C14_burst_damage_detected.
+
+(* non-vacuity: a record and a copy with three bytes of its value overwritten meet the hypothesis *)
+Example C14_window_example :
+  let m := {| moff := 7; mtime := 1000; mkey := [1; 2]%N; mval := [10; 20; 30; 40; 50]%N |} in
+  let m' := {| moff := 7; mtime := 1000; mkey := [1; 2]%N; mval := [10; 99; 98; 97; 50]%N |} in
+  CrcBurst.differ_in_window (enc_rec (fun _ => 0) V2 m) (enc_rec (fun _ => 0) V2 m').
+Proof.
+  cbv zeta. exists (firstn 31 (enc_rec (fun _ => 0) V2 {| moff := 7; mtime := 1000; mkey := [1; 2]%N; mval := [10; 20; 30; 40; 50]%N |})),
+    [20; 30; 40]%N, [99; 98; 97]%N, (50 :: trailer)%N.
+  vm_compute. repeat split; try lia; try discriminate.
+Qed.
